@@ -298,6 +298,13 @@ def run(ck, n_hints: int, seed: int, focus: str, depth: int = 3, exhaustive_dept
             usable.append((h, hm))
 
     # ---------------------------------------------------------------- 1. code-level tie
+    # (run BEFORE the source comparison: make_check_expr is memoised, only its first run per hint can be traced)
+    # the placeholder mechanism that assembles the source (Core/Bfs.lean, `bfs_eq_flat`): the snippets the real
+    # generator spliced, replayed breadth-first and composed recursively by the model, give the real code
+    n_bfs, bdiffs = corr.bfs_tie([h for h, _ in usable], ('default', 'nonrandom'))
+    ex.extra['placeholder_mechanism'] = {'traces_replayed': n_bfs, 'differences': len(bdiffs)}
+    for d in bdiffs[:20]:
+        ex.corr_diffs.append({k: (v[:400] if isinstance(v, str) else v) for k, v in d.items()})
     n_code, diffs, skipped = corr.code_tie([h for h, _ in usable], reg, preds)
     ex.extra['code_level'] = {'hint_x_conf_compared': n_code, 'differences': len(diffs),
                               'exhaustive_shapes': n_exh, 'random_hints': n_hints}
